@@ -30,3 +30,9 @@ Proof. exact (process_packet_th bl tbl v th th' now host b stale). Qed.
 (* the filter of T1 keeps the instance's own events and the clocks, nothing else *)
 Example C17_concerns : concerns 1 (EPkt 1 []) = true /\ concerns 1 (EPkt 2 []) = false /\ concerns 1 (EWall 5) = true /\ concerns 1 (EStop 0) = false.
 Proof. repeat split; reflexivity. Qed.
+
+(* T3b: in the current source the bodies behind the process-wide report timers do nothing but report (extracted sites: one code
+   each, no other call): no discard, clear or other state change of an instance can depend on what another instance reported *)
+From RS Require Import Gen.Kernels_gen Proofs.Throttle.
+Theorem C17_T3b_limited_bodies_only_report : forallb site_ok throttle_sites = true.
+Proof. exact (proj1 throttle_sites_shape). Qed.
